@@ -26,6 +26,10 @@ fn dispatch(sx: &Sx) -> String {
     match sx.head() {
         "osstr" => modes::lex::osstr(args),
         "cursor" => modes::lex::cursor(args),
+        "probe" => modes::wrap::probe(args),
+        "wrap" => modes::wrap::wrap(args),
+        "styled" => modes::wrap::styled(args),
+        "about" => modes::wrap::about(args),
         m => format!("unknown-mode {m}"),
     }
 }
